@@ -807,14 +807,14 @@ func (f *FeaturesByID) fillPathSegments(point b6.FeatureID, path b6.FeatureID, s
 				}
 				previous := 0
 				for i := position - 1; i > 0; i-- {
-					if id, ok := p.Reference(i, fb.Strings); ok && f.isGraphNode(id) {
+					if id, ok := p.Reference(i, fb.Strings); ok && f.isGraphNode(id, fb) {
 						previous = i
 						break
 					}
 				}
 				next := n - 1
 				for i := position + 1; i < n-1; i++ {
-					if id, ok := p.Reference(i, fb.Strings); ok && f.isGraphNode(id) {
+					if id, ok := p.Reference(i, fb.Strings); ok && f.isGraphNode(id, fb) {
 						next = i
 						break
 					}
@@ -835,11 +835,14 @@ func (f *FeaturesByID) fillPathSegments(point b6.FeatureID, path b6.FeatureID, s
 // isGraphNode returns true if this point should be a node in the
 // network graph. We currently consider intersections and points with tags
 // as nodes.
-func (f *FeaturesByID) isGraphNode(point Reference) bool {
+// isGraphNode returns whether point, a reference read from the block from,
+// is a node of the traversal graph. The point can be stored in blocks from
+// other index files, which can encode namespaces differently.
+func (f *FeaturesByID) isGraphNode(point Reference, from *featureBlock) bool {
 	paths := 0
 	for _, fb := range f.features[b6.FeatureTypePoint] {
 		_, ns := point.TypeAndNamespace.Split()
-		if fb.Namespaces[b6.FeatureTypePoint] == ns {
+		if fb.holdsNamespace(b6.FeatureTypePoint, ns, from) {
 			t, ok := fb.Map.FindFirst(point.Value)
 			if ok {
 				switch t.Tag {
